@@ -59,4 +59,21 @@ theorem extract_appended (attrs : List (Bytes × Option Bytes)) (p r : Fin 256) 
   simp only [extractApt, hk, if_true, ne_eq, not_true_eq_false, if_false, hsplit, parseU8_decNat r, parseApt_decNat p]
   simp [aptLookup]
 
+/-- a primary media packet (payload type not an RTX type, not on the RTX SSRC) passes through unchanged, and
+a packet on the RTX SSRC whose payload type is not an RTX type is dropped, never guessed -/
+theorem rtx_rx_passthrough (apt : List (UInt8 × UInt8)) (negotiated : Option UInt32) (ssrc : UInt32) (p : Packet)
+    (hpt : aptLookup apt p.hdr.pt = none) :
+    maybeUnwrap apt negotiated ssrc p = if negotiated = some p.hdr.ssrc then none else some p := by
+  simp only [maybeUnwrap, hpt, Option.isNone_none, Bool.true_and]
+  by_cases h : negotiated = some p.hdr.ssrc <;> simp [h]
+
+/-- `rtx_pt_for_primary` can only answer with a payload type that the map associates with the primary one
+(which one, if several, is the `HashMap`'s choice): the candidates are exactly the associated ones -/
+theorem rtx_candidates_spec (m : List (UInt8 × UInt8)) (primary r : UInt8) :
+    r ∈ rtxCandidates m primary ↔ (r, primary) ∈ m := by
+  simp only [rtxCandidates, List.mem_map, List.mem_filter, beq_iff_eq]
+  constructor
+  · rintro ⟨⟨a, b⟩, ⟨hm, hb⟩, ha⟩; simp only at hb ha; subst hb; subst ha; exact hm
+  · intro h; exact ⟨(r, primary), ⟨h, rfl⟩, rfl⟩
+
 end RtcModel.C15
